@@ -7,12 +7,16 @@ from absint import explore, vkey, variant_name, TooManyPaths
 from common import short, op_local, rvalue_operands, Call
 
 ESC = {"<": "&lt;", ">": "&gt;", '"': "&quot;", "'": "&apos;", "&": "&amp;"}
+# the message is written into an attribute value: an XML parser normalises a literal tab, line feed or carriage return there to
+# a space (XML 1.0 §3.3.3), so the text read back from the report is not the formatted line unless they are character references
+WS = {"\t": ("&#9;", "&#x9;"), "\n": ("&#10;", "&#xA;", "&#xa;"), "\r": ("&#13;", "&#xD;", "&#xd;")}
 
 
 def run(ctx):
     p, r = ctx.p, ctx.r
     A = r.rule("R12-a", "XmlEscaped::fmt maps < > \" ' & to their five entities — each in one arm without a guard, whatever surrounds "
-                        "the character — and every other character to itself; in "
+                        "the character —, tab / line feed / carriage return to character references (an attribute value is "
+                        "whitespace-normalised by the reader) and every other character to itself; in "
                         "output_checkstyle_file every value derived from a DiffLine payload is wrapped in XmlEscaped")
     def _xml_family():
         fam = {f.id for f in p.fns.values() if "XmlEscaped" in (f.root or f.id) and (f.root or f.id).endswith("::fmt")}
@@ -55,7 +59,17 @@ def run(ctx):
                 r.violation(A, "XmlEscaped: %r ↦ %s" % (ch, got.get(ch)),
                             "the character %r is written as %s instead of %s: the checkstyle document is not well-formed for "
                             "sources containing it" % (ch, got.get(ch), ent), ["src/emitter/checkstyle/xml.rs"])
-        extra = set(got) - set(ESC)
+        for ch, refs in WS.items():
+            ok = got.get(ch) is not None and len(got[ch]) == 1 and got[ch][0] in refs
+            r.cells(A, 1)
+            r.instance(A, "attribute-value whitespace %r ↦ %s" % (ch, got.get(ch)), "ok" if ok else "violation",
+                       "src/emitter/checkstyle/xml.rs")
+            if not ok:
+                r.violation(A, "XmlEscaped: %r is written literally into an attribute value" % ch,
+                            "the `message` attribute receives %r as itself; a conforming XML parser normalises it to a space, so "
+                            "the text read from the checkstyle report differs from the formatted line and from the json report "
+                            "(hard_tabs = true: every indented line)" % ch, ["src/emitter/checkstyle/xml.rs"])
+        extra = set(got) - set(ESC) - set(WS)
         if extra:
             r.violation(A, "XmlEscaped: additional characters %s rewritten" % sorted(extra), str({k: got[k] for k in extra}),
                         ["src/emitter/checkstyle/xml.rs"])
